@@ -406,6 +406,7 @@ def _child_call(job):
 
     r = Run(pid, tier, seed)
     r.deadline = r.t0 + r.section_budget
+    E.DEADLINE[0] = r.deadline + 20  # hard stop for solver calls made outside Run.prove
     try:
         func(r, item)
     except Exception:
